@@ -9,17 +9,19 @@ root = open(os.path.join(props.LEAN, 'Pm.lean')).read()
 claimed = [p for p in props.PROPS if ('import Pm.Props.%s\n' % p) in root]
 import common
 NOTES = {
+ 'C02': 'partial: the end-to-end run theorems are stated over runs whose regex answers are supplied for the first pass only (lifting to answers per pass in progress); the 309 line is proved per statement, not end to end',
  'C04': 'partial: the quantitative time bound under arbitrary reconnect storms is not proved',
- 'C05': 'partial: non-interference through a general client phase and equality of real completion times are not proved',
- 'C06': 'partial: memory safety of the C code beyond the modelled buffers is observed under ASan/UBSan, not proved; lines >= 128 KiB are not in the model yet',
- 'C07': 'partial: memory safety of the C code beyond the modelled buffers is observed under ASan/UBSan, not proved',
- 'C09': 'partial: buffer capacity (cbuf indices, overflow) is not modelled',
- 'C11': 'partial: client-id wrap at INT_MAX is outside the unbounded-Nat model',
- 'C15': 'partial: CR/LF-freeness of data-carrying lines is a hypothesis of the stream theorems',
+ 'C05': 'partial: two hypotheses remain (the sick device consumed the same number of descriptors in both runs; clients that observe it are inert); equality of real completion times is outside a model whose time is an input',
+ 'C06': 'partial: memory safety of the C code beyond the modelled buffers is observed under ASan/UBSan, not proved',
+ 'C07': 'partial: memory safety of the C code beyond the modelled buffers is observed under ASan/UBSan, not proved; hosts with several addresses are not modelled yet',
+ 'C09': 'partial: the daemon model carries its buffers as byte lists with liblsd\'s size and overwrite rules; the ring itself (cbuf.c at index level) is a separate model proved to refine that queue and tied to the real cbuf.c by its own layer, not substituted into the daemon model; serial lines: the tty line discipline is a model compared with the running kernel on a pty',
+ 'C11': 'partial: client-id wrap at INT_MAX is outside the unbounded counter of the model (known finding F17, replayed on the real code by the id-wrap layer)',
+ 'C15': 'partial: the model never drops client output (the property carries the 1 MiB proviso); cleanliness of data-carrying lines needs a CR/LF-free configuration',
  'C16': 'partial: memory safety of the remaining C is observed under ASan, not proved',
- 'C17': 'acceptance by the parser and regcomp is observed (the translator is the real parser); the static predicate is decided in the kernel for every shipped statement',
+ 'C17': 'acceptance by the parser and regcomp is observed (the translator is the real parser); the static predicate is decided in the kernel for every shipped statement and proved sound for the interpreter model (specOK_sound)',
  'C18': 'partial: the flex/bison automata, malloc and regcomp are not modelled; their behaviour on arbitrary input is observed under sanitizers',
- 'C20': 'partial: real descriptors, children and heap are observed (ledger predicates, LeakSanitizer at shutdown), the ledger invariants are proved on the model',
+ 'C19': 'partial: the command parser and setplugs of redfishpower are not modelled yet (observed through raw lines)',
+ 'C20': 'partial: real descriptors, children and heap are observed (ledger predicates, LeakSanitizer at shutdown, exit status of the real main()), the ledger invariants and the signal pass are proved on the model',
 }
 for pid, d in props.PROPS.items():
     if pid not in claimed: continue
